@@ -250,6 +250,14 @@ def _corner_descs():
                     make_feasible=high, mf_mode="after_query")
         for kind in KINDS:
             yield kind, dict(star)
+    # a route of negative cost in the pool that the heuristic's own solution does not use: a default penalty derived from
+    # the heuristic's solution (instead of from all route costs) is too small
+    for neg_cost in (-5, -50):
+        negr = dict(base, nodes=[("D", 0, 0, INF), ("c1", 0, 0, INF), ("c2", 0, 0, INF)],
+                    arcs=[("D", "c1", 1, 1), ("c1", "c2", 1, 0), ("c2", "D", 1, 0), ("D", "c2", 2, neg_cost)],
+                    time_points=[0, 1, 2, 3], routes=[["D", "c2", "D"]], V=2, L=4, strict=False, vehicle_cap=1, initial_loading=0,
+                    make_feasible=10, mf_mode="fresh")
+        yield "path", dict(negr)
     # a customer nobody can reach / nobody can leave, the model queried before the heuristic: make_feasible adds arcs
     # (hence variables), and every cached piece of data requested afterwards must be rebuilt
     for high in (10, 1000):
